@@ -49,6 +49,8 @@ OtherMethods == << <<70,79,79>>,                 \* "FOO"
                    <<78,79,84,73,70,89,49,50,51,52>>,             \* "NOTIFY1234"
                    <<83,73,80,47,50,46,48,45,69,88,84>>,          \* "SIP/2.0-EXT"  (starts like the version, but no space after it)
                    <<115,105,112,47,50,46,48,120>>,               \* "sip/2.0x"
+                   \* a known name with another first byte (same letter in lower case; another byte with the same low bits)
+                   <<105,78,86,73,84,69>>, <<81,78,86,73,84,69>>, <<97,67,75>>, <<74,89,69>>,   \* "iNVITE" "QNVITE" "aCK" "JYE"
                    \* method tokens longer than the 14 bytes the parser waits for before it looks at the line
                    <<80,82,69,45,65,85,84,72,79,82,73,90,69,68,45,73,78,86,73,84,69>>,        \* "PRE-AUTHORIZED-INVITE"
                    <<76,79,78,71,45,77,69,84,72,79,68,45,78,65,77,69,45,88,45,65,67,75>> >>   \* "LONG-METHOD-NAME-X-ACK"
